@@ -61,6 +61,7 @@ def strip_ref(t):
     return t
 
 def canon_generic(s):
+    s = re.sub(r"#(KEY|DEF):.*$", "", s)
     s = F.norm_ty(s)
     s = re.sub(r"\{closure@[^}]*\}", "{closure}", s)
     return s
@@ -68,7 +69,13 @@ def canon_generic(s):
 def subst_ty(a, subst):
     if not subst:
         return a
-    return re.sub(r"\b(%s)\b" % "|".join(re.escape(k) for k in sorted(subst, key=len, reverse=True)), lambda m: subst[m.group(1)], a)
+    # anonymous `impl Trait` parameters are named by their whole bound: replace those literally first
+    for k in sorted((k for k in subst if not re.match(r"^\w+$", k)), key=len, reverse=True):
+        a = a.replace(k, subst[k])
+    ids = [k for k in subst if re.match(r"^\w+$", k)]
+    if not ids:
+        return a
+    return re.sub(r"\b(%s)\b" % "|".join(re.escape(k) for k in sorted(ids, key=len, reverse=True)), lambda m: subst[m.group(1)], a)
 
 def is_const(t):
     return tag(t) == "const"
@@ -134,6 +141,59 @@ class State:
     def alloc(self):
         self.nloc[0] += 1
         return self.nloc[0]
+
+_written_memo = {}
+def closure_written_captures(cb):
+    """indices of the captured variables a closure body assigns through (places rooted at the environment with a deref
+    after the capture's field), or passes on as `&mut`"""
+    if cb.key in _written_memo:
+        return _written_memo[cb.key]
+    out = set()
+    def env_field(p):
+        # (*_1).i or _1.i followed by a deref: the pointee of capture i
+        if p["l"] != 1:
+            return None
+        proj = [e for e in p["p"]]
+        fi = None
+        for k, e in enumerate(proj):
+            if isinstance(e, dict) and "f" in e and fi is None:
+                fi = e["f"]
+            elif e == "deref" and fi is not None:
+                return fi
+        return None
+    def env_capture(p):
+        # (*_1).i or _1.i itself (the captured reference)
+        if not isinstance(p, dict) or p.get("l") != 1:
+            return None
+        fs = [e for e in p["p"] if isinstance(e, dict) and "f" in e]
+        if len(fs) == 1 and p["p"][-1] is fs[0] or (len(fs) == 1 and p["p"] and p["p"][-1] == fs[0]):
+            return fs[0]["f"]
+        return None
+    for blk in cb.mir["blocks"]:
+        for s_ in blk["s"]:
+            if "lhs" in s_:
+                fi = env_field(s_["lhs"])
+                if fi is not None:
+                    out.add(fi)
+                # the captured `&mut` copied into a local (and used through it)
+                rv0 = s_.get("rv", {})
+                if "use" in rv0 and isinstance(rv0["use"], dict):
+                    src = rv0["use"].get("copy") or rv0["use"].get("move")
+                    fi2 = env_capture(src) if src else None
+                    if fi2 is not None and not s_["lhs"]["p"] and F.norm_ty(cb.mir["locals"][s_["lhs"]["l"]]["ty"]).startswith("&mut"):
+                        out.add(fi2)
+                rv = s_.get("rv", {})
+                if "ref" in rv and rv.get("mut"):
+                    fi = env_field(rv["ref"]) if isinstance(rv["ref"], dict) else None
+                    if fi is not None:
+                        out.add(fi)
+        t = blk["t"]
+        if t["k"] == "call":
+            fi = env_field(t["dest"]) if isinstance(t.get("dest"), dict) else None
+            if fi is not None:
+                out.add(fi)
+    _written_memo[cb.key] = out
+    return out
 
 def const_range(v):
     """(integer type, lo, hi) of a `lo..hi` value with constant bounds"""
@@ -314,6 +374,7 @@ class Exec:
         self.loop_entries = []      # (body ident, head, {local: (value before the loop, havoc term)})
         self.stop = None            # (frame depth, blocks): leaving these blocks at that depth ends the run ("exit",)
         self.closure_subst = {}     # closure body key -> type substitution of the frame that created the closure value
+        self.covered = set()        # idents of the bodies this evaluator entered
 
     # ------------------------------------------------------------ loops
     def loop_info(self, mir):
@@ -554,6 +615,16 @@ class Exec:
         if ty == "TwoFloat":
             w = F.words_from_hex(hx)
             return mk("agg", ("adt", "TwoFloat", 0, "TwoFloat"), (mk_const("f64", w[0]), mk_const("f64", w[1])))
+        if (ty in INT_BITS or ty in ("bool", "char")) and len(hx) in (2, 4, 8, 16, 32):
+            return mk_const(ty, int.from_bytes(bytes.fromhex(hx), "little"))
+        m = re.match(r"^core::ops::RangeInclusive<(.+)>$", ty)
+        if m:
+            # a constant `lo..=hi`: the same value as RangeInclusive::new(lo, hi) (not yet iterated)
+            ety = m.group(1)
+            esz = {"f64": 8, "TwoFloat": 16}.get(ety) or (INT_BITS.get(ety, 0) // 8)
+            if esz and len(hx) >= 4 * esz:
+                lo = self.from_bytes(ety, hx[:2 * esz]); hi = self.from_bytes(ety, hx[2 * esz:4 * esz])
+                return mk("call", "core::ops::RangeInclusive::<Idx>::new<%s>" % ety, lo, hi)
         return mk("carray", ty, hx)
 
     def store_to(self, st, loc, proj, val):
@@ -908,7 +979,19 @@ class Exec:
                 cb = self.facts.closure_at.get(m.group(1))
                 if cb is not None:
                     return {"def": f["def"], "args": args, "res": {"def": cb.path, "key": cb.key, "args": [], "local": True}}
-            m = re.match(r"^fn\(.*\{(.+)\}$", args[0].strip())
+            a0 = args[0].strip()
+            mk_ = re.search(r"#KEY:(.+)$", a0)
+            if mk_:
+                b = self.facts.by_key.get(mk_.group(1))
+                if b is not None:
+                    return {"def": f["def"], "args": args, "res": {"def": b.path, "key": b.key, "args": [], "local": True, "fnitem": True}}
+            md_ = re.search(r"#DEF:(.+)$", a0)
+            a0 = re.sub(r"#(KEY|DEF):.*$", "", a0)
+            if md_ and not re.search(r"<[A-Z]\w? as |<[A-Z]>|\b[A-Z]\b", F.norm_path(md_.group(1))):
+                # a concrete foreign function (blanket impls such as `<T as Into<U>>::into` need their type arguments: below)
+                d2 = md_.group(1)
+                return {"def": d2, "args": [], "spread": True, "res": {"def": d2, "args": [], "local": False}}
+            m = re.match(r"^fn\(.*\{(.+)\}$", a0)
             if m:
                 inner = F.norm_path(m.group(1))
                 b = self.facts.get(inner)
@@ -1017,6 +1100,19 @@ class Exec:
                 self.iterated.append(sl)
                 return mk("sliceiter", sl[0], sl[1], sl[2], 0)
             return None
+        if (base.startswith("core::slice::<impl [T]>::split_last") or base.startswith("core::slice::<impl [T]>::split_first")) and len(args) == 1:
+            sl = self.slice_view(st, args[0])
+            if sl is not None and sl[2] - sl[1] >= 1:
+                from . import idioms
+                carr, lo, hi = sl
+                last = "split_last" in base
+                el = self.index(carr, mk_const("usize", hi - 1 if last else lo))
+                l1 = st.alloc(); st.store[l1] = el
+                nlo, nhi = (lo, hi - 1) if last else (lo + 1, hi)
+                rng = mk("agg", ("adt", "core::ops::Range", 0, "Range"), (mk_const("usize", nlo), mk_const("usize", nhi)))
+                l2 = st.alloc(); st.store[l2] = mk("deref", mk("call", idioms.INDEX, carr, rng))
+                return mk("agg", ("adt", "core::option::Option", 1, "Some"), (mk("agg", ("tuple",), (mk("ref", l1, ()), mk("ref", l2, ()))),))
+            return None
         a0 = self.deref_value(st, args[0]) if args else None
         cr = const_range(a0)
         if cr is not None:
@@ -1051,8 +1147,11 @@ class Exec:
             el = self.index(carr, mk_const("usize", idx))
             loc = st.alloc(); st.store[loc] = el
             return mk("agg", ("adt", "core::option::Option", 1, "Some"), (mk("ref", loc, ()),))
-        if (base.endswith("Iterator>::fold") or base.startswith("core::iter::Iterator::fold")) and len(args) == 3:
+        is_rfold = base.endswith("Iterator>::rfold") or base.startswith("core::iter::DoubleEndedIterator::rfold")
+        if (base.endswith("Iterator>::fold") or base.startswith("core::iter::Iterator::fold") or is_rfold) and len(args) == 3:
             carr, lo, hi, rev = a0[1], a0[2], a0[3], a0[4]
+            if is_rfold:
+                rev = 1 - rev
             clo = self.deref_value(st, args[2])
             if tag(clo) != "agg" or clo[1][0] != "closure":
                 return None
@@ -1137,6 +1236,11 @@ class Exec:
                 return mk("discr", v)
             c = mk("cmp", "eq", "i8", od(args[0]), od(args[1]))
             return c if base.endswith("::eq") else mk("not", c)
+        if base in ("core::ops::RangeInclusive::<Idx>::end", "core::ops::RangeInclusive::<Idx>::start") and len(args) == 1:
+            rng = self.deref_value(st, args[0])
+            if tag(rng) == "call" and rng[1].startswith("core::ops::RangeInclusive::<Idx>::new") and len(rng) == 4:
+                loc = st.alloc(); st.store[loc] = rng[3] if base.endswith("::end") else rng[2]
+                return mk("ref", loc, ())
         if base == "<core::option::Option<T> as core::default::Default>::default" and not args:
             return mk("agg", ("adt", "core::option::Option", 0, "None"), ())
         if base == "<f64 as core::default::Default>::default":
@@ -1190,6 +1294,8 @@ class Exec:
                 args = items
         if callee is not None:
             depth_same = sum(1 for f in st.frames if f.body is callee) if callee.kind != "Plumbing" else 0
+            if depth_same and depth_same < 4 and callee.generics and callee.kind != "Closure" and not self.policy.has_loop_or_recursion(callee):
+                depth_same = 0      # a generic helper (taking a closure / fn item) entered again from inside the function it was given: not a recursion
             if depth_same and self.hooks is not None and getattr(self.hooks, "recursion_limit", 0) > depth_same \
                     and not callee.reachable and callee.ident() not in self.policy.keep:
                 depth_same = 0      # bounded re-entry of a private recursive helper (decided by the hooks' facts)
@@ -1227,7 +1333,7 @@ class Exec:
                 for i, a in enumerate(args):
                     st.store[locs[i + 1]] = a
                 if callee.kind != "Plumbing":
-                    COVERED.add(callee.ident())
+                    COVERED.add(callee.ident()); self.covered.add(callee.ident())
                 st.frames.append(nf)
                 return ("enter", 0)
             return self.opaque_call(st, fr, t, callee.ident(), args, callee)
@@ -1275,10 +1381,48 @@ class Exec:
         for i in muts:
             a = args[i]
             self.store_to(st, a[1], tuple(a[2]), mk("after", term, i))
+        # a closure handed to code that is not read through may run any number of times: whatever it captures by
+        # reference and assigns through is unknown afterwards
+        if callee is None:
+            for ai, a in enumerate(args):
+                cv = a
+                if tag(cv) == "ref":
+                    try:
+                        cv = self.load(st, cv[1], cv[2])
+                    except Unsupported:
+                        continue
+                if tag(cv) == "agg" and cv[1][0] == "closure":
+                    cb = self.facts.by_key.get(cv[1][1])
+                    if cb is None:
+                        continue
+                    written = closure_written_captures(cb)
+                    for fi, cap in enumerate(cv[2]):
+                        if fi in written and tag(cap) == "ref":
+                            self.store_to(st, cap[1], tuple(cap[2]), mk("after", term, "cap%d.%d" % (ai, fi)))
         if t.get("diverges") or t["t"] is None:
             return ("diverge", term)
         self.write_place(st, fr, t["dest"], term)
         return None
+
+    def split_on_flag(self, st, fr, cnd, dest, ity, bi, next_si, target_block=None):
+        """fork on a symbolic bool whose integer value is being taken: dest = 1 / 0 in the two states"""
+        neg = False
+        c = cnd
+        while tag(c) == "not":
+            c = c[1]; neg = not neg
+        if c in st.known and type(st.known[c]) is not tuple:
+            return None
+        if self.hooks is not None:
+            return None
+        out = []
+        for val in (1, 0):
+            s_ = st.fork()
+            s_.known[c] = val
+            f_ = s_.frames[-1]
+            bit = (1 - val) if neg else val
+            self.write_place(s_, f_, dest, mk_const(ity, bit))
+            out.append(self.exec_block(s_, bi, next_si) if target_block is None else self.exec_block(s_, target_block))
+        return ("if", c, out[0], out[1])
 
     # ------------------------------------------------------------ control flow
     def finish(self, st, fr):
@@ -1290,33 +1434,53 @@ class Exec:
                 effects.append((i, v))
         return ("leaf", ret, tuple(effects))
 
-    def exec_block(self, st, bi):
+    def exec_block(self, st, bi, si=0):
+        """si > 0: resume block bi at statement si (after a case split on a statement of the block)"""
         while True:
             self.nodes += 1
             if self.nodes > self.max_nodes:
                 raise Unsupported("node budget exceeded")
             fr = st.frames[-1]
-            if self.stop is not None and len(st.frames) == self.stop[0] and bi not in self.stop[1]:
+            if si:
+                pass
+            elif self.stop is not None and len(st.frames) == self.stop[0] and bi not in self.stop[1]:
                 return ("exit",)
-            if bi in fr.visited and fr.seen_at.get(bi) == st.nforks and fr.revisits < 400:
+            if si:
+                pass
+            elif bi in fr.visited and fr.seen_at.get(bi) == st.nforks and fr.revisits < 400:
                 # the path from this block back to itself took no symbolic branch: a loop with a concrete
                 # trip count (iteration over a constant table) is unrolled
                 fr.revisits += 1
                 fr.visited = fr.visited - {bi}
-            if bi in fr.visited:
+            if si:
+                pass
+            elif bi in fr.visited:
                 if self.loops == "havoc" and bi in self.loop_info(fr.mir):
                     cs, assigned, through = self.loop_info(fr.mir)[bi]
                     snap = tuple((l, self.deref_value(st, st.store.get(fr.locs[l]))) for l in sorted(assigned) if fr.locs[l] in st.store)
                     return ("backedge", fr.body.ident(), bi, snap)
                 raise Unsupported("loop in %s" % fr.body.ident())
-            fr.visited = fr.visited | {bi}
-            first_visit = bi not in fr.seen_at
-            fr.seen_at[bi] = st.nforks
-            if self.loops == "havoc" and bi in self.loop_info(fr.mir) and first_visit and not self.concrete_loop(st, fr, bi):
-                self.havoc(st, fr, bi)
+            if not si:
+                fr.visited = fr.visited | {bi}
+                first_visit = bi not in fr.seen_at
+                fr.seen_at[bi] = st.nforks
+                if self.loops == "havoc" and bi in self.loop_info(fr.mir) and first_visit and not self.concrete_loop(st, fr, bi):
+                    self.havoc(st, fr, bi)
             b = fr.mir["blocks"][bi]
-            for s in b["s"]:
+            start = si
+            si = 0
+            for k_s, s in enumerate(b["s"]):
+                if k_s < start:
+                    continue
                 if "lhs" in s:
+                    rv_ = s.get("rv", {})
+                    if "cast" in rv_ and rv_["cast"] == "IntToInt" and F.norm_ty(rv_.get("from", "")) == "bool" and F.norm_ty(rv_.get("ty", "")) in INT_BITS:
+                        # `flag as usize`: a symbolic flag becomes a case split, so that what it selects (an array element) is concrete
+                        cnd = self.operand(st, fr, rv_["a"])
+                        if not is_const(cnd):
+                            r_ = self.split_on_flag(st, fr, cnd, s["lhs"], F.norm_ty(rv_["ty"]), bi, k_s + 1)
+                            if r_ is not None:
+                                return r_
                     self.assign(st, fr, s)
                 elif "setdiscr" in s:
                     raise Unsupported("SetDiscriminant")
@@ -1357,6 +1521,17 @@ class Exec:
             if k == "unreachable":
                 return ("unreachable",)
             if k == "call":
+                if "f" in t and t.get("t") is not None and len(t["args"]) == 1:
+                    d_ = F.norm_path(((t["f"].get("res") or t["f"]).get("def", "")))
+                    mb = re.match(r"^core::convert::num::<impl core::convert::From<bool> for (\w+)>::from$", d_)
+                    if mb and mb.group(1) in INT_BITS:
+                        cnd = self.operand(st, fr, t["args"][0])
+                        if is_const(cnd):
+                            self.write_place(st, fr, t["dest"], mk_const(mb.group(1), cint(cnd)))
+                            bi = t["t"]; continue
+                        r_ = self.split_on_flag(st, fr, cnd, t["dest"], mb.group(1), bi, 0, target_block=t["t"])
+                        if r_ is not None:
+                            return r_
                 r = self.do_call(st, fr, t)
                 if r is None:
                     if t["t"] is None:
@@ -1365,6 +1540,10 @@ class Exec:
                 if r[0] == "enter":
                     bi = 0; continue
                 if r[0] == "diverge":
+                    if t.get("dbg") and self.hooks is None:
+                        # the failure arm of a debug_assert!: the form rules read the function as if the assertion holds
+                        # (whether it can fire is the business of the totality rules, which do see this arm)
+                        return ("unreachable",)
                     if self.hooks is not None:
                         self.hooks.on_panic(self, st, fr, t, r[1][1])
                     nm = r[1][1]
